@@ -2,14 +2,33 @@
 From PJ.Model Require Import Base Terms Encoder Streams Decoder.
 From PJ.Proofs Require Import AgreeProofs DecoderProofs.
 
-(* The two decoders (two hand-written copies, as in the code) agree frame by frame on every
-   RDF 1.1 stream, from any state. *)
-Theorem C15_integrations_agree_on_parse :
+(* The two decoders (two hand-written copies, as in the code, each with its integration's term constructors): on every RDF 1.1
+   stream the rdflib one hands out, frame by frame, the VIEW of what the generic one hands out (rdflib's Literal constructor
+   applied to each literal: AgreeProofs.rview), from any state ... *)
+Theorem C15_rdflib_parse_is_view_of_generic :
   forall (ak : adapter_kind) (po : poptions) (fs : list frame) (st : dstate),
     forallb (fun f => forallb row_rdf11 (f_rows f)) fs = true ->
-    decode_frames Generic ak po fs st = decode_frames Rdflib ak po fs st.
+    decode_frames Rdflib ak po fs (vst st) = map fview (decode_frames Generic ak po fs st).
+Proof. exact decode_frames_view. Qed.
+Print Assumptions C15_rdflib_parse_is_view_of_generic.
+
+(* ... so they agree term for term wherever what is handed out are terms rdflib can hold (the view leaves them alone) ... *)
+Theorem C15_integrations_agree_on_parse :
+  forall (ak : adapter_kind) (po : poptions) (fs : list frame) (st : dstate),
+    forallb (fun f => forallb row_rdf11 (f_rows f)) fs = true -> vst st = st ->
+    Forall result_fixed (decode_frames Generic ak po fs st) ->
+    decode_frames Rdflib ak po fs st = decode_frames Generic ak po fs st.
 Proof. exact decode_frames_agree. Qed.
 Print Assumptions C15_integrations_agree_on_parse.
+
+(* ... and NOT on every valid RDF 1.1 stream (known finding rdflib-whitespace-facet): a witness *)
+Theorem C15_integrations_agree_on_parse_refuted :
+  exists st, decoder_new token_po = Ok st /\
+    forallb (fun f => forallb row_rdf11 (f_rows f)) token_stream = true /\
+    decode_frames Generic ATriples token_po token_stream st = [([], [ETriple (TBnode [115]) (TBnode [112]) (TLit [32; 32; 97] None (Some xsd_token))], None)] /\
+    decode_frames Rdflib ATriples token_po token_stream st = [([], [ETriple (TBnode [115]) (TBnode [112]) (TLit [97] None (Some xsd_token))], None)].
+Proof. exact readers_differ_on_token_literals. Qed.
+Print Assumptions C15_integrations_agree_on_parse_refuted.
 
 (* Flat and grouped-concatenated are the same observation of the same per-frame results. *)
 Theorem C15_flat_is_grouped_concatenated :
@@ -57,11 +76,11 @@ Theorem C15_flat_and_grouped_entry_points_agree :
 Proof. exact parse_entry_points_agree. Qed.
 Print Assumptions C15_flat_and_grouped_entry_points_agree.
 
-(* ... and on byte streams without quoted triples (well-formed frames, written delimited) the rdflib
-   parser is the generic parser, for every flag combination *)
+(* ... and on byte streams without quoted triples and with well-formed language tags (well-formed frames, written delimited) the
+   rdflib parser returns the view of what the generic parser returns, for every flag combination *)
 Theorem C15_parsers_agree_on_bytes :
   forall (fs : list frame) (grouped strict : bool),
     hint (firstn 3 (write_delimited fs)) = true -> Forall sendable fs -> rows_rdf11 (flat_map f_rows fs) ->
-    parse_stream Rdflib grouped strict (write_delimited fs) = parse_stream Generic grouped strict (write_delimited fs).
-Proof. exact rdflib_parser_is_generic. Qed.
+    parse_stream Rdflib grouped strict (write_delimited fs) = pview (parse_stream Generic grouped strict (write_delimited fs)).
+Proof. exact rdflib_parser_is_view. Qed.
 Print Assumptions C15_parsers_agree_on_bytes.
